@@ -446,7 +446,7 @@ class Session:
             if q < 0.85:
                 return {"op": "add_base", "mi": mi, "space": rng.choice(SPACES + EXTRA), "base": rng.choice(SPACES + EXTRA)}
             return {"op": "remove_base", "mi": mi, "space": rng.choice(SPACES + EXTRA), "base": rng.choice(SPACES + EXTRA)}
-        if self.cfg.get("cells") and r < 0.3 and rng.random() < 0.2:
+        if self.cfg.get("cells") and r < 0.3 and rng.random() < 0.2 and rec["spaces"]:
             return {"op": "new_cells", "mi": mi, "where": rng.choice(sorted(rec["spaces"])), "name": name}
         if r < 0.3:
             path = "files/%s.csv" % rng.choice(["p1", "p2", "p3", "p4"])
